@@ -121,11 +121,29 @@ def run_shard(shard, acc):
                         continue
                     acc.state((cls_name, d, r))
                     explore_state(bs, acc, cls_name, v, d, False, pats[:6], pat_objs, windows[::7] + [(None, None)], kind, src=RT.source(r, cls_name, d))
+                # and with the PATTERN being a window onto a longer source (in-memory data)
+                for r in ('file_len', 'bytes_off3', 'bytesio'):
+                    vp = {}
+                    for p_ in pats[:6]:
+                        try:
+                            o = RT.build(bs, r, 'Bits' if r != 'bytesio' else 'ConstBitStream', p_, ctx)
+                        except Exception:  # noqa: BLE001
+                            o = None
+                        if o is not None and p_:
+                            vp[p_] = o
+                            _PATSRC[p_] = RT.source(r, 'Bits' if r != 'bytesio' else 'ConstBitStream', p_)
+                    if vp:
+                        acc.state((cls_name, d, 'pattern-' + r))
+                        try:
+                            explore_state(bs, acc, cls_name, cls(bin=d), d, False, list(vp), vp, windows[::7] + [(None, None)], kind)
+                        finally:
+                            _PATSRC.clear()
     core.set_options()
     ctx.close()
 
 
 _SRC = [None]
+_PATSRC = {}      # pattern bits -> source text of the pattern object when it is not the plain Bits(bin=...)
 
 
 def explore_state(bs, acc, cls_name, s, d, opt, pats, pat_objs, windows, kind, src=None):
@@ -266,6 +284,10 @@ def vkind(exp, got):
 
 def snip(cls_name, d, opt, expr, exp):
     pre = ["import bitstring", f"bitstring.options.bytealigned = {opt}", f"s = bitstring.{cls_name}(bin={d!r})"]
+    if _PATSRC:
+        for p_, psrc in _PATSRC.items():
+            expr = expr.replace(f"bitstring.Bits(bin={p_!r})", psrc)
+        pre = [RT.SNIPPET_PRELUDE] + pre[1:]
     if _SRC[0] and cls_name != 'BitArray' or (_SRC[0] and 'replace' not in expr):
         pre = [RT.SNIPPET_PRELUDE, f"bitstring.options.bytealigned = {opt}", f"s = {_SRC[0]}"]
     if exp[0] == 'ok':
